@@ -686,7 +686,7 @@ def _fail(call: Call, desc: Any, pre: Circuit, kind: str, obs: str) -> dict:
 
 def scopes(tier: str) -> list[tuple[tuple[int, ...], int, bool]]:
     if tier == 'quick':
-        return [((2, 2), 2, False), ((2, 2, 2), 2, False), ((2, 3), 2, False)]
+        return [((2, 2), 3, False), ((2, 2, 2), 2, False), ((2, 3), 2, False)]
     return [((2, 2), 3, True), ((2, 2, 2), 2, True), ((2, 3), 2, False),
             ((3, 2, 2), 1, False), ((2, 2, 2, 2), 1, False)]
 
